@@ -33,6 +33,61 @@ type finding struct {
 	what string
 }
 
+// curGID returns the id of the calling goroutine (first line of its stack: "goroutine N [running]:").
+func curGID() int64 {
+	var b [64]byte
+	n := runtime.Stack(b[:], false)
+	s := strings.TrimPrefix(string(b[:n]), "goroutine ")
+	if i := strings.IndexByte(s, ' '); i > 0 {
+		id, _ := strconv.ParseInt(s[:i], 10, 64)
+		return id
+	}
+	return 0
+}
+
+// parkedInDo reports which of the wanted goroutines are inside sync.(*WaitGroup).Wait called from
+// singleflight.(*Group).Do, i.e. have JOINED a call (dups was incremented) and wait for its result.
+// Observed from outside through a goroutine dump: the code under test is not touched.
+func parkedInDo(want map[int64]bool) map[int64]bool {
+	buf := make([]byte, 1<<20)
+	for {
+		n := runtime.Stack(buf, true)
+		if n < len(buf) {
+			buf = buf[:n]
+			break
+		}
+		buf = make([]byte, 2*len(buf))
+	}
+	out := map[int64]bool{}
+	for _, blk := range strings.Split(string(buf), "\n\n") {
+		if !strings.HasPrefix(blk, "goroutine ") {
+			continue
+		}
+		rest := blk[len("goroutine "):]
+		i := strings.IndexByte(rest, ' ')
+		if i <= 0 {
+			continue
+		}
+		id, _ := strconv.ParseInt(rest[:i], 10, 64)
+		if want[id] && strings.Contains(blk, "singleflight.(*Group).Do") && strings.Contains(blk, "sync.(*WaitGroup).Wait") {
+			out[id] = true
+		}
+	}
+	return out
+}
+
+// waitParked polls (bounded, steering only) until all wanted goroutines are confirmed joined.
+func waitParked(want map[int64]bool, max time.Duration) map[int64]bool {
+	dl := time.Now().Add(max)
+	for {
+		got := parkedInDo(want)
+		if len(got) == len(want) || time.Now().After(dl) {
+			return got
+		}
+		time.Sleep(30 * time.Microsecond)
+	}
+}
+
 // =====================================================================================
 // (A) generic group
 // =====================================================================================
@@ -58,7 +113,12 @@ type gCall struct {
 	Count int    `json:"count"`
 	ErrID int64  `json:"error_id"` // 0 nil, -1 an error no execution produced
 	Ran   bool   `json:"ran_fn"`
+	RanN  int    `json:"times_ran_fn"`
+	// Parked: a goroutine dump taken while the leader was held showed this caller inside
+	// WaitGroup.Wait of Do, i.e. it had joined the call in flight
+	Parked bool `json:"confirmed_joined_before_release,omitempty"`
 
+	gid     int64
 	stamped int32
 	errExec bool
 	spin    int
@@ -69,15 +129,19 @@ type gErr struct{ id int64 }
 func (e *gErr) Error() string { return "error of execution " + strconv.FormatInt(e.id, 10) }
 
 type gHist struct {
-	Stream string   `json:"stream"`
-	Index  int      `json:"index"`
-	Mode   string   `json:"mode"`
-	N      int      `json:"callers"`
-	K      int      `json:"keys"`
-	Procs  int      `json:"gomaxprocs"`
-	Plan   string   `json:"plan,omitempty"`
-	Calls  []*gCall `json:"calls"`
-	Execs  []*gExec `json:"executions"`
+	Stream string `json:"stream"`
+	Index  int    `json:"index"`
+	Mode   string `json:"mode"`
+	N      int    `json:"callers"`
+	K      int    `json:"keys"`
+	Procs  int    `json:"gomaxprocs"`
+	Plan   string `json:"plan,omitempty"`
+	// ValKind: what fn returns as value: "id" (unique int64), "nil" (untyped nil), "typed-nil" ((*int)(nil));
+	// with the nil kinds executions are identified through the side log only
+	ValKind string   `json:"fn_value_kind"`
+	Confirm bool     `json:"joins_confirmed_by_goroutine_dump,omitempty"`
+	Calls   []*gCall `json:"calls"`
+	Execs   []*gExec `json:"executions"`
 
 	clock  int64
 	nextID int64
@@ -89,6 +153,9 @@ func (h *gHist) tick() int64 { return atomic.AddInt64(&h.clock, 1) }
 // do is one caller: call stamp, Do, return stamp. fn logs an execution record; when hold is
 // non-nil the execution stays inside fn until hold is closed.
 func (h *gHist) do(g *singleflight.Group, c *gCall, hold <-chan struct{}, started chan struct{}) {
+	if h.Confirm {
+		c.gid = curGID()
+	}
 	c.Call = h.tick()
 	atomic.StoreInt32(&c.stamped, 1)
 	v, n, err := g.Do(c.Key, func() (interface{}, error) {
@@ -98,6 +165,7 @@ func (h *gHist) do(g *singleflight.Group, c *gCall, hold <-chan struct{}, starte
 		h.Execs = append(h.Execs, e)
 		h.mu.Unlock()
 		c.Ran = true // goroutine-local: fn runs on the caller's own goroutine
+		c.RanN++
 		if started != nil {
 			close(started)
 		}
@@ -108,15 +176,26 @@ func (h *gHist) do(g *singleflight.Group, c *gCall, hold <-chan struct{}, starte
 			runtime.Gosched()
 		}
 		e.End = h.tick()
-		if c.errExec {
-			return e.ID, &gErr{e.ID}
+		var val interface{} = e.ID
+		switch h.ValKind {
+		case "nil":
+			val = nil
+		case "typed-nil":
+			val = (*int)(nil)
 		}
-		return e.ID, nil
+		if c.errExec {
+			return val, &gErr{e.ID}
+		}
+		return val, nil
 	})
 	c.Ret = h.tick()
 	c.Count = n
 	if id, ok := v.(int64); ok && id > 0 {
 		c.Val = id
+	} else if v == nil {
+		c.ValS = "nil"
+	} else if p, ok := v.(*int); ok && p == nil {
+		c.ValS = "typed-nil"
 	} else {
 		c.ValS = fmt.Sprintf("%T(%v)", v, v)
 	}
@@ -128,6 +207,8 @@ func (h *gHist) do(g *singleflight.Group, c *gCall, hold <-chan struct{}, starte
 		c.ErrID = -1
 	}
 }
+
+var valKinds = []string{"id", "id", "nil", "typed-nil"}
 
 var keyPool = []string{"k", "", "a", "a/b", "a/", "/a", "k0", "k1", "UserGroups/x:y"}
 
@@ -145,6 +226,8 @@ type gWave struct {
 // (arrival around completion).
 func runSteered(r *rand.Rand, idx int) *gHist {
 	h := &gHist{Stream: "c16-steered", Index: idx, Mode: "steered", Procs: runtime.GOMAXPROCS(0)}
+	h.ValKind = valKinds[idx%len(valKinds)]
+	h.Confirm = idx%32 == 0 || idx%32 == 2 || idx%32 == 3 // joins confirmed by goroutine dumps (costly: a subset)
 	h.N = 2 + r.Intn(15)
 	h.K = 1 + r.Intn(3)
 	perm := r.Perm(len(keyPool))
@@ -233,11 +316,22 @@ func runSteered(r *rand.Rand, idx int) *gHist {
 						runtime.Gosched()
 					}
 				}
-				for i := 0; i < w.yields; i++ {
-					runtime.Gosched()
-				}
-				if len(w.calls) > 1 {
-					time.Sleep(w.sleep)
+				if h.Confirm && len(w.calls) > 1 {
+					want := map[int64]bool{}
+					for _, c := range w.calls[1:] {
+						want[c.gid] = true
+					}
+					got := waitParked(want, 20*time.Millisecond)
+					for _, c := range w.calls[1:] {
+						c.Parked = got[c.gid] // only this driver writes it; the judge reads it after all joined
+					}
+				} else {
+					for i := 0; i < w.yields; i++ {
+						runtime.Gosched()
+					}
+					if len(w.calls) > 1 {
+						time.Sleep(w.sleep)
+					}
 				}
 				close(hold)
 				if w.gap == "returned" {
@@ -256,6 +350,7 @@ func runSteered(r *rand.Rand, idx int) *gHist {
 // runStress executes one unsteered history: G goroutines, R calls each, released together.
 func runStress(r *rand.Rand, idx, procs int) *gHist {
 	h := &gHist{Stream: "c16-stress", Index: idx, Mode: "stress", Procs: procs}
+	h.ValKind = valKinds[idx%len(valKinds)]
 	G := 2 + r.Intn(15)
 	R := 1 + r.Intn(5)
 	h.N = G
@@ -290,8 +385,8 @@ func runStress(r *rand.Rand, idx, procs int) *gHist {
 }
 
 type gStats struct {
-	merged, latecomerFresh, errExecs, errMerged, windowJoins, execs int
-	desc                                                            string
+	merged, latecomerFresh, errExecs, errMerged, windowJoins, execs, parked int
+	desc                                                                    string
 }
 
 // judgeGeneric is the interval oracle.
@@ -301,11 +396,45 @@ func judgeGeneric(h *gHist) ([]finding, gStats) {
 	add := func(sig, what string) { fs = append(fs, finding{"generic: " + sig, what}) }
 	byID := map[int64]*gExec{}
 	perKey := map[string][]*gExec{}
+	ownExec := map[int]*gExec{}
 	for _, e := range h.Execs {
 		byID[e.ID] = e
 		perKey[e.Key] = append(perKey[e.Key], e)
+		if _, dup := ownExec[e.Runner]; !dup {
+			ownExec[e.Runner] = e
+		}
 	}
 	st.execs = len(h.Execs)
+	idKind := h.ValKind == "" || h.ValKind == "id"
+
+	// ---- checks that need no attribution of callers to executions (side log only)
+	joinsCounted := map[string]int{}
+	didNotExecute := map[string]int{}
+	for _, c := range h.Calls {
+		if c.RanN > 1 {
+			add("fn-executed-twice-by-one-caller", fmt.Sprintf("call %d ran fn %d times during one Do", c.Idx, c.RanN))
+		}
+		if c.Parked {
+			st.parked++
+			if c.Ran {
+				add("joined-caller-executed-again", fmt.Sprintf("call %d on key %q was seen waiting inside Do for the call in flight (it had joined) and nevertheless ran fn itself during that Do", c.Idx, c.Key))
+			}
+		}
+		if c.Ran {
+			joinsCounted[c.Key] += c.Count
+		} else {
+			didNotExecute[c.Key]++
+		}
+	}
+	for k := range perKey {
+		switch j, n := joinsCounted[k], didNotExecute[k]; {
+		case j > n:
+			add("more-joins-counted-than-callers-that-did-not-execute", fmt.Sprintf("key %q: the executing callers were told %d callers joined them, but only %d callers did not execute fn themselves: a caller both joined and executed", k, j, n))
+		case j < n:
+			add("leader-count-mismatch", fmt.Sprintf("key %q: the executing callers were told %d callers joined them, but %d callers got a result without executing", k, j, n))
+		}
+	}
+
 	receivers := map[int64]int{}
 	for _, c := range h.Calls {
 		if c.Val != 0 {
@@ -313,6 +442,88 @@ func judgeGeneric(h *gHist) ([]finding, gStats) {
 		}
 	}
 	for _, c := range h.Calls {
+		if !idKind {
+			// fn returns (nil|typed nil, nil|err): executions are identified through the side log
+			if c.Val != 0 || c.ValS != h.ValKind {
+				add("caller-received-wrong-value", fmt.Sprintf("call %d on key %q got value %s%d, fn returns %s", c.Idx, c.Key, c.ValS, c.Val, h.ValKind))
+				continue
+			}
+			if c.Ran {
+				e := ownExec[c.Idx]
+				if e.End == 0 || e.End > c.Ret {
+					add("returned-before-execution-ended", fmt.Sprintf("call %d returned at %d although its own execution %d ended at %d", c.Idx, c.Ret, e.ID, e.End))
+				}
+				switch {
+				case e.Err && c.ErrID != e.ID:
+					add("error-not-propagated", fmt.Sprintf("call %d ran execution %d which returned its error, but got error id %d", c.Idx, e.ID, c.ErrID))
+				case !e.Err && c.ErrID != 0:
+					add("spurious-error", fmt.Sprintf("call %d ran execution %d which returned no error, but got error id %d", c.Idx, e.ID, c.ErrID))
+				}
+				for _, p := range perKey[c.Key] {
+					if p != e && h.Calls[p.Runner].Ret < c.Call {
+						st.latecomerFresh++
+						break
+					}
+				}
+				continue
+			}
+			st.merged++
+			if c.Count != 0 {
+				add("follower-count-nonzero", fmt.Sprintf("call %d did not run fn but was told count=%d", c.Idx, c.Count))
+			}
+			if c.ErrID == -1 {
+				add("spurious-error", fmt.Sprintf("call %d got an error no execution produced", c.Idx))
+				continue
+			}
+			if c.ErrID > 0 {
+				e := byID[c.ErrID]
+				switch {
+				case e == nil:
+					add("caller-received-unknown-id", fmt.Sprintf("call %d got error id %d that no execution produced", c.Idx, c.ErrID))
+				case e.Key != c.Key:
+					add("result-from-another-key", fmt.Sprintf("call %d on key %q received the error of execution %d of key %q", c.Idx, c.Key, e.ID, e.Key))
+				default:
+					st.errMerged++
+					if e.End == 0 || e.End > c.Ret {
+						add("returned-before-execution-ended", fmt.Sprintf("call %d returned at %d although execution %d ended at %d", c.Idx, c.Ret, e.ID, e.End))
+					}
+					if lr := h.Calls[e.Runner].Ret; lr < c.Call {
+						add("stale-join", fmt.Sprintf("call %d (Do called at %d) received the error of execution %d whose leader's Do had returned at %d", c.Idx, c.Call, e.ID, lr))
+					}
+				}
+				continue
+			}
+			// (nil, nil) without executing: some completed, error-free execution on this key must be able to have served it
+			ok, early, stale, errOnly := false, false, false, false
+			for _, e := range perKey[c.Key] {
+				switch {
+				case e.Start > c.Ret:
+				case e.End == 0 || e.End > c.Ret:
+					early = true
+				case h.Calls[e.Runner].Ret < c.Call:
+					stale = true
+				case e.Err:
+					errOnly = true
+				default:
+					ok = true
+					if c.Call > e.End {
+						st.windowJoins++
+					}
+				}
+			}
+			switch {
+			case ok:
+			case stale:
+				add("stale-join", fmt.Sprintf("call %d (Do called at %d) got a result without executing although every execution on key %q had completed and its leader had returned before", c.Idx, c.Call, c.Key))
+			case early:
+				add("returned-before-execution-ended", fmt.Sprintf("call %d returned at %d without executing, before any execution on key %q had ended", c.Idx, c.Ret, c.Key))
+			case errOnly:
+				add("error-not-propagated", fmt.Sprintf("call %d got (nil, nil) without executing although the only executions on key %q that could have served it returned an error", c.Idx, c.Key))
+			default:
+				add("caller-received-no-execution-result", fmt.Sprintf("call %d got a result without executing although no execution ran on key %q during the call", c.Idx, c.Key))
+			}
+			continue
+		}
 		if c.Val == 0 {
 			add("caller-received-no-execution-result", fmt.Sprintf("call %d on key %q got %s instead of the id of an execution", c.Idx, c.Key, c.ValS))
 			continue
@@ -384,16 +595,22 @@ func judgeGeneric(h *gHist) ([]finding, gStats) {
 	for _, k := range keys {
 		var s []string
 		for _, e := range perKey[k] {
-			x := strconv.Itoa(receivers[e.ID])
+			x := "x"
+			if idKind {
+				x = strconv.Itoa(receivers[e.ID])
+			}
 			if e.Err {
 				x += "e"
 				st.errExecs++
 			}
 			s = append(s, x)
 		}
+		if !idKind {
+			s = append(s, fmt.Sprintf("j%d", didNotExecute[k]))
+		}
 		d = append(d, strings.Join(s, ","))
 	}
-	st.desc = h.Mode + "|" + strings.Join(d, "|")
+	st.desc = h.Mode + "|" + h.ValKind + "|" + strings.Join(d, "|")
 	return fs, st
 }
 
@@ -423,6 +640,11 @@ func recordGeneric(rep *vh.Report, h *gHist, sampleEvery int) {
 	rep.Count(p+"error_executions", st.errExecs)
 	rep.Count(p+"merged_error_receivers", st.errMerged)
 	rep.Count(p+"joined_after_fn_end_before_leader_return", st.windowJoins)
+	rep.Count(p+"histories_fn_returns_"+h.ValKind, 1)
+	if h.ValKind != "id" {
+		rep.Count("generic_merged_calls_with_nil_value", st.merged)
+	}
+	rep.Count("generic_callers_confirmed_joined_by_goroutine_dump", st.parked)
 	if h.Mode == "stress" {
 		rep.Count(fmt.Sprintf("generic_stress_histories_gomaxprocs_%d", h.Procs), 1)
 	}
@@ -458,14 +680,23 @@ type wExec struct {
 	Start   int64  `json:"start"`
 	End     int64  `json:"end"`
 	Outcome string `json:"outcome"`
+
+	gid int64 // goroutine that executed the inner provider
 }
 
 type sessSnap struct {
-	AccessToken      string   `json:"access_token"`
-	RefreshDeadline  string   `json:"refresh_deadline"`
-	ValidDeadline    string   `json:"valid_deadline"`
-	GracePeriodStart string   `json:"grace_period_start"`
-	Groups           []string `json:"groups"`
+	AccessToken        string   `json:"access_token"`
+	RefreshDeadline    string   `json:"refresh_deadline"`
+	ValidDeadline      string   `json:"valid_deadline"`
+	GracePeriodStart   string   `json:"grace_period_start"`
+	Groups             []string `json:"groups"`
+	RefreshToken       string   `json:"refresh_token"`
+	LifetimeDeadline   string   `json:"lifetime_deadline"`
+	Email              string   `json:"email"`
+	User               string   `json:"user"`
+	AuthorizedUpstream string   `json:"authorized_upstream"`
+	ProviderSlug       string   `json:"provider_slug"`
+	ProviderType       string   `json:"provider_type"`
 }
 
 func snap(s *sessions.SessionState) *sessSnap {
@@ -479,27 +710,74 @@ func snap(s *sessions.SessionState) *sessSnap {
 		return t.UTC().Format(time.RFC3339)
 	}
 	return &sessSnap{AccessToken: s.AccessToken, RefreshDeadline: f(s.RefreshDeadline), ValidDeadline: f(s.ValidDeadline),
-		GracePeriodStart: f(s.GracePeriodStart), Groups: append([]string{}, s.Groups...)}
+		GracePeriodStart: f(s.GracePeriodStart), Groups: append([]string{}, s.Groups...),
+		RefreshToken: s.RefreshToken, LifetimeDeadline: f(s.LifetimeDeadline), Email: s.Email, User: s.User,
+		AuthorizedUpstream: s.AuthorizedUpstream, ProviderSlug: s.ProviderSlug, ProviderType: s.ProviderType}
 }
 
-func (a *sessSnap) diff(b *sessSnap) []string {
+// updatable are the fields a validation / refresh may update; identity are the fields that make a
+// session that session and that no coalesced call may ever change.
+var updatableFields = []string{"AccessToken", "RefreshDeadline", "ValidDeadline", "GracePeriodStart", "Groups"}
+var identityFields = []string{"LifetimeDeadline", "Email", "User", "AuthorizedUpstream", "ProviderSlug", "ProviderType", "RefreshToken"}
+
+func (a *sessSnap) field(name string) string {
+	switch name {
+	case "AccessToken":
+		return a.AccessToken
+	case "RefreshDeadline":
+		return a.RefreshDeadline
+	case "ValidDeadline":
+		return a.ValidDeadline
+	case "GracePeriodStart":
+		return a.GracePeriodStart
+	case "Groups":
+		return strings.Join(a.Groups, "\x00")
+	case "RefreshToken":
+		return a.RefreshToken
+	case "LifetimeDeadline":
+		return a.LifetimeDeadline
+	case "Email":
+		return a.Email
+	case "User":
+		return a.User
+	case "AuthorizedUpstream":
+		return a.AuthorizedUpstream
+	case "ProviderSlug":
+		return a.ProviderSlug
+	case "ProviderType":
+		return a.ProviderType
+	}
+	panic("field " + name)
+}
+
+// changed lists the updatable fields in which b differs from a.
+func (a *sessSnap) changed(b *sessSnap) []string {
 	var d []string
-	if a.AccessToken != b.AccessToken {
-		d = append(d, "access token")
-	}
-	if a.RefreshDeadline != b.RefreshDeadline {
-		d = append(d, "refresh deadline")
-	}
-	if a.ValidDeadline != b.ValidDeadline {
-		d = append(d, "valid deadline")
-	}
-	if a.GracePeriodStart != b.GracePeriodStart {
-		d = append(d, "grace start")
-	}
-	if strings.Join(a.Groups, "\x00") != strings.Join(b.Groups, "\x00") {
-		d = append(d, "groups")
+	for _, f := range updatableFields {
+		if a.field(f) != b.field(f) {
+			d = append(d, f)
+		}
 	}
 	return d
+}
+
+// protectedFields are the fields of a caller's own session that a (merged) call of the method must
+// leave exactly as the caller passed them in: the identity fields, plus every updatable field the
+// method never updates. (Updatable fields a method leaves alone on some paths but that the proxy
+// middleware copies from the executing caller - RefreshDeadline for ValidateSessionState,
+// ValidDeadline for RefreshSession - are a don't-care: callers' inputs agree on them.)
+func protectedFields(svc, m string) []string {
+	p := append([]string{}, identityFields...)
+	switch svc + "/" + m {
+	case "proxy/ValidateSessionState":
+		p = append(p, "AccessToken")
+	case "proxy/RefreshSession":
+	case "auth/RefreshSessionIfNeeded":
+		p = append(p, "ValidDeadline", "GracePeriodStart", "Groups")
+	default: // auth ValidateSessionState, Revoke: nothing is updated
+		p = append(p, updatableFields...)
+	}
+	return p
 }
 
 type wArg struct {
@@ -524,7 +802,12 @@ type wCall struct {
 	Before  *sessSnap `json:"session_before,omitempty"`
 	After   *sessSnap `json:"session_after,omitempty"`
 
+	// Parked: a goroutine dump taken while the leader was held showed this caller waiting inside
+	// singleflight's Do for the call in flight, i.e. it had joined
+	Parked bool `json:"confirmed_joined_before_release,omitempty"`
+
 	sess    *sessions.SessionState
+	gid     int64
 	stamped int32
 	done    chan struct{}
 }
@@ -550,6 +833,7 @@ func (h *wHist) tick() int64 { return atomic.AddInt64(&h.clock, 1) }
 func (h *wHist) begin(method, subject, tag string) *wExec {
 	e := &wExec{ID: atomic.AddInt64(&h.nextID, 1), Method: method, Subject: subject, Tag: tag}
 	e.Outcome = h.Outcomes[method+"|"+subject]
+	e.gid = curGID()
 	e.Start = h.tick()
 	h.mu.Lock()
 	h.Execs = append(h.Execs, e)
@@ -1184,11 +1468,39 @@ func runWrapper(sp wSpec, r *rand.Rand, idx int) (*wHist, bool) {
 			if sp.graceSet {
 				c.sess.GracePeriodStart = graceOld
 			}
+			if k := c.Idx; sp.class == "same-subject" && k > 0 {
+				// a DISTINCT session that shares the token the endpoint is keyed by (another login of the same
+				// authenticator session, hours apart / on another upstream host): it differs from the first
+				// caller's in every field the call must not touch
+				kd := time.Duration(k)
+				c.sess.LifetimeDeadline = farT.Add(kd * time.Hour)
+				c.sess.Email = fmt.Sprintf("other%d.%s", k, c.Arg.Email)
+				c.sess.AuthorizedUpstream = fmt.Sprintf("host%d.sso.test", k)
+				c.sess.ProviderSlug = fmt.Sprintf("idp%d", k)
+				c.sess.ProviderType = []string{"sso", "sso-alt"}[k%2]
+				if g.m.subject == "access" {
+					c.sess.RefreshToken = fmt.Sprintf("%s-of-login-%d", c.Arg.Refresh, k)
+				} else {
+					c.sess.AccessToken = fmt.Sprintf("%s-of-login-%d", c.Arg.Access, k)
+				}
+				for _, f := range protectedFields(sp.svc, g.m.name) {
+					switch f {
+					case "RefreshDeadline":
+						c.sess.RefreshDeadline = staleT.Add(kd * time.Minute)
+					case "ValidDeadline":
+						c.sess.ValidDeadline = staleT.Add(kd * time.Minute)
+					case "GracePeriodStart":
+						c.sess.GracePeriodStart = graceOld.Add(kd * time.Minute)
+					case "Groups":
+						c.sess.Groups = []string{fmt.Sprintf("stale-group-of-login-%d", k)}
+					}
+				}
+			}
 			c.Before = snap(c.sess)
 		case g.m.subject == "groups":
 			c.Arg.Access = c.Tag // the access token is not part of the subject: it identifies whose arguments ran
 		default:
-			c.Tag = "" // RefreshAccessToken(refreshToken): nothing identifies the caller
+			c.Tag = "" // RefreshAccessToken(refreshToken): nothing in the arguments identifies the caller (its goroutine does)
 		}
 		h.Calls = append(h.Calls, c)
 		return c
@@ -1196,6 +1508,7 @@ func runWrapper(sp wSpec, r *rand.Rand, idx int) (*wHist, bool) {
 	launch := func(c *wCall) {
 		go func() {
 			defer close(c.done)
+			c.gid = curGID()
 			c.Call = h.tick()
 			atomic.StoreInt32(&c.stamped, 1)
 			c.Answer, c.ExecID = call(c, allowed)
@@ -1226,10 +1539,22 @@ func runWrapper(sp wSpec, r *rand.Rand, idx int) (*wHist, bool) {
 			runtime.Gosched()
 		}
 	}
-	for i := 0; i < sp.yields; i++ {
-		runtime.Gosched()
+	if sp.class == "same-subject" {
+		// confirm the joins from outside (goroutine dump): a confirmed joiner must not execute
+		want := map[int64]bool{}
+		for _, c := range first[1:] {
+			want[c.gid] = true
+		}
+		got := waitParked(want, 20*time.Millisecond)
+		for _, c := range first[1:] {
+			c.Parked = got[c.gid]
+		}
+	} else {
+		for i := 0; i < sp.yields; i++ {
+			runtime.Gosched()
+		}
+		time.Sleep(sp.sleep)
 	}
-	time.Sleep(sp.sleep)
 	close(h.hold)
 	wd := time.After(20 * time.Second)
 	for _, c := range first {
@@ -1254,6 +1579,7 @@ func runWrapper(sp wSpec, r *rand.Rand, idx int) (*wHist, bool) {
 type wStats struct {
 	merged map[string]int // svc/method -> callers served by an execution run for another caller
 	fresh  int
+	parked int
 	desc   string
 }
 
@@ -1261,35 +1587,26 @@ func judgeWrapper(h *wHist) ([]finding, wStats) {
 	var fs []finding
 	st := wStats{merged: map[string]int{}}
 	add := func(sig, what string) { fs = append(fs, finding{"wrapper: " + sig, what}) }
-	byTag := map[string]*wExec{}
 	byID := map[int64]*wExec{}
-	callByTag := map[string]*wCall{}
+	byGID := map[int64]*wExec{} // the execution a caller's own goroutine ran (fn runs on the leader's goroutine)
+	callByGID := map[int64]*wCall{}
+	nOwn := map[int64]int{}
 	for _, e := range h.Execs {
 		byID[e.ID] = e
-		if e.Tag != "" {
-			byTag[e.Tag] = e
+		if _, dup := byGID[e.gid]; !dup {
+			byGID[e.gid] = e
 		}
+		nOwn[e.gid]++
 	}
 	for _, c := range h.Calls {
-		if c.Tag != "" {
-			callByTag[c.Tag] = c
-		}
+		callByGID[c.gid] = c
 	}
-	// upper bound of the stamp at which the leader of e returned from the wrapper (0 = unknown)
+	// stamp at which the leader of e returned from the wrapper (0 = unknown)
 	leaderRet := func(e *wExec, c *wCall) int64 {
-		if e.Tag != "" {
-			if L := callByTag[e.Tag]; L != nil && L != c {
-				return L.Ret
-			}
-			return 0
+		if L := callByGID[e.gid]; L != nil && L != c {
+			return L.Ret
 		}
-		var mx int64
-		for _, d := range h.Calls {
-			if d != c && d.ExecID == e.ID && d.Ret > mx {
-				mx = d.Ret
-			}
-		}
-		return mx
+		return 0
 	}
 	probe := ""
 	if h.Probe != "" {
@@ -1299,9 +1616,18 @@ func judgeWrapper(h *wHist) ([]finding, wStats) {
 	for _, c := range h.Calls {
 		m := method(h.Svc, c.Method)
 		name := h.Svc + "/" + c.Method
-		var own *wExec
-		if c.Tag != "" {
-			own = byTag[c.Tag]
+		own := byGID[c.gid]
+		if nOwn[c.gid] > 1 {
+			add("inner-provider-executed-twice-by-one-caller "+name, fmt.Sprintf("call %d ran the inner provider %d times during one wrapper call", c.Idx, nOwn[c.gid]))
+		}
+		if c.Parked {
+			st.parked++
+			if own != nil {
+				add("joined-caller-executed-again "+name, fmt.Sprintf("call %d was seen waiting inside singleflight's Do for the %s in flight (it had joined it) and nevertheless executed the inner provider itself (execution %d) during that call", c.Idx, c.Method, own.ID))
+			}
+		}
+		if own != nil && (own.Method != c.Method || own.Subject != c.Subject) {
+			own = nil // cannot happen: the wrapper passes the caller's own arguments
 		}
 		served := own
 		if served == nil && c.ExecID != 0 {
@@ -1329,7 +1655,7 @@ func judgeWrapper(h *wHist) ([]finding, wStats) {
 			}
 			cands = []*wExec{served}
 		} else {
-			// the answer carries no execution id and this caller's arguments were never executed:
+			// the answer carries no execution id and this caller did not execute:
 			// some execution for the same endpoint and subject must be able to have served it
 			early, stale := false, false
 			for _, e := range h.Execs {
@@ -1361,55 +1687,59 @@ func judgeWrapper(h *wHist) ([]finding, wStats) {
 				continue
 			}
 		}
-		isFollower := own == nil // served by an execution run with another caller's arguments
-		if c.Tag == "" {         // RefreshAccessToken: followers are the receivers beyond the first of an id
-			isFollower = false
-		}
+		isFollower := own == nil // served by an execution another caller ran
 		if isFollower {
 			st.merged[name]++
 			mergedTotal++
 		}
-		if c.Role == "late" && (own != nil || (c.Tag == "" && served != nil && served.Start > c.Call)) {
+		if c.Role == "late" && own != nil {
 			st.fresh++
+		}
+		// a caller's own session: the fields no call of this endpoint may touch stay as passed in
+		if c.sess != nil && isFollower && c.After != nil {
+			for _, f := range protectedFields(h.Svc, c.Method) {
+				if c.Before.field(f) != c.After.field(f) {
+					whose := "a value that is not its own"
+					for _, e := range cands {
+						if L := callByGID[e.gid]; L != nil && L.After != nil && L.After.field(f) == c.After.field(f) {
+							whose = fmt.Sprintf("the value of call %d's session (the caller whose %s ran)", L.Idx, c.Method)
+						}
+					}
+					add("follower-session-overwritten-with-leaders "+name+" field="+f, fmt.Sprintf("call %d was merged into another caller's %s; afterwards its own session's %s is no longer what it passed in (%q) but %s: %q", c.Idx, c.Method, f, c.Before.field(f), whose, c.After.field(f)))
+				}
+			}
 		}
 		if want := expectedAnswer(m, h.Outcomes[c.Method+"|"+c.Subject]); c.Answer != want {
 			add("wrong-answer "+name+probe, fmt.Sprintf("call %d for subject %q got %q, the inner provider answers %q for it", c.Idx, c.Subject, c.Answer, want))
 			continue
 		}
-		// session-update clause
+		// session-update clause: every field the executing caller's session had updated is the same in the follower's
 		if c.sess != nil && isFollower && c.Answer == "true" {
 			hadUpdate, match := false, false
-			var diffs []string
+			var missing []string
 			for _, e := range cands {
-				L := callByTag[e.Tag]
-				if L == nil || L.After == nil {
+				L := callByGID[e.gid]
+				if L == nil || L.After == nil || L.Before == nil {
 					continue
 				}
-				if len(L.Before.diff(L.After)) > 0 {
+				ch := L.Before.changed(L.After)
+				if len(ch) > 0 {
 					hadUpdate = true
 				}
-				d := c.After.diff(L.After)
-				if len(d) == 0 {
+				var miss []string
+				for _, f := range ch {
+					if c.After.field(f) != L.After.field(f) {
+						miss = append(miss, f)
+					}
+				}
+				if len(miss) == 0 {
 					match = true
 				}
-				diffs = d
+				missing = miss
 			}
 			if hadUpdate && !match {
-				add("follower-session-not-updated "+name, fmt.Sprintf("call %d was merged into another caller's %s and answered true, but its own session differs from the executing caller's in: %s", c.Idx, c.Method, strings.Join(diffs, ", ")))
+				add("follower-session-not-updated "+name, fmt.Sprintf("call %d was merged into another caller's %s and answered true, but its own session lacks the executing caller's updates of: %s", c.Idx, c.Method, strings.Join(missing, ", ")))
 			}
-		}
-	}
-	// RefreshAccessToken: merged = receivers of an id beyond the first
-	recv := map[int64]int{}
-	for _, c := range h.Calls {
-		if c.Tag == "" && c.ExecID != 0 {
-			recv[c.ExecID]++
-		}
-	}
-	for _, n := range recv {
-		if n > 1 {
-			st.merged[h.Svc+"/RefreshAccessToken"] += n - 1
-			mergedTotal += n - 1
 		}
 	}
 	// at most one execution at a time per endpoint and subject
@@ -1447,23 +1777,27 @@ type e2eResp struct {
 	Opens   bool      `json:"cookie_opens"`
 	Cookie  *sessSnap `json:"reissued_session,omitempty"`
 	Stale   []string  `json:"stale_fields,omitempty"`
+	Sent    int       `json:"cookie_sent"` // index into cookies_sent
+	Host    string    `json:"host"`
+	Foreign []string  `json:"fields_not_of_the_session_sent,omitempty"`
 }
 
 type e2eRun struct {
-	Stream       string     `json:"stream"`
-	Index        int        `json:"index"`
-	Kind         string     `json:"kind"`
-	N            int        `json:"requests"`
-	Original     *sessSnap  `json:"cookie_sent"`
-	PrimaryCalls int        `json:"authenticator_calls_for_the_token"`
-	MaxInflight  int        `json:"max_calls_in_flight"`
-	Resps        []*e2eResp `json:"responses"`
+	Stream       string      `json:"stream"`
+	Index        int         `json:"index"`
+	Kind         string      `json:"kind"`
+	N            int         `json:"requests"`
+	Sent         []*sessSnap `json:"cookies_sent"`
+	PrimaryCalls int         `json:"authenticator_calls_for_the_token"`
+	MaxInflight  int         `json:"max_calls_in_flight"`
+	Resps        []*e2eResp  `json:"responses"`
 }
 
 const e2eHost = "c16.sso.test"
+const e2eHost2 = "c16b.sso.test"
 
 func runE2E(rep *vh.Report, ps *sut.ProxyStack, r *rand.Rand, idx int) {
-	kinds := []string{"validate", "refresh", "validate-outage-grace"}
+	kinds := []string{"validate", "refresh", "validate-outage-grace", "validate-two-sessions", "refresh-two-sessions"}
 	run := &e2eRun{Stream: "c16-e2e", Index: idx, Kind: kinds[idx%len(kinds)], N: 2 + r.Intn(7)}
 	email := fmt.Sprintf("user%d@corp.test", idx)
 	sess := ps.Session(e2eHost, email, []string{"g-old", "g1"})
@@ -1472,7 +1806,9 @@ func runE2E(rep *vh.Report, ps *sut.ProxyStack, r *rand.Rand, idx int) {
 	endpoint, key := "validate", sess.AccessToken
 	newTok := "nt-" + sut.NewID()
 	hold := make(chan struct{})
-	switch run.Kind {
+	twoSessions := strings.HasSuffix(run.Kind, "-two-sessions")
+	base := strings.TrimSuffix(run.Kind, "-two-sessions")
+	switch base {
 	case "validate":
 		sess.ValidDeadline = now.Add(-back).Truncate(time.Second)
 		if r.Intn(2) == 0 {
@@ -1497,8 +1833,30 @@ func runE2E(rep *vh.Report, ps *sut.ProxyStack, r *rand.Rand, idx int) {
 		ps.Auth.Unset("profile", sess.AccessToken)
 	}()
 	orig := *sess
-	run.Original = snap(&orig)
-	cookie := ps.CookieName + "=" + ps.Seal(sess)
+	sent := []*sessions.SessionState{&orig}
+	hosts := []string{e2eHost}
+	if twoSessions {
+		// a DISTINCT session of the same authenticator session (same tokens): logged in hours earlier,
+		// under another e-mail alias, in every other run on the second upstream host
+		b := orig
+		b.Groups = append([]string{}, orig.Groups...)
+		b.LifetimeDeadline = orig.LifetimeDeadline.Add(-time.Duration(3+r.Intn(9)) * time.Hour)
+		b.Email = fmt.Sprintf("alias%d@corp.test", idx)
+		b.User = fmt.Sprintf("alias%d", idx)
+		h := e2eHost
+		if (idx/len(kinds))%2 == 1 {
+			h = e2eHost2
+			b.AuthorizedUpstream = e2eHost2
+		}
+		sent = append(sent, &b)
+		hosts = append(hosts, h)
+	}
+	var cookies []string
+	for _, o := range sent {
+		run.Sent = append(run.Sent, snap(o))
+		cookies = append(cookies, ps.CookieName+"="+ps.Seal(o))
+	}
+	which := func(i int) int { return i % len(sent) } // request 0 carries the first session
 
 	resps := make([]*sut.Resp, run.N)
 	var wg sync.WaitGroup
@@ -1506,7 +1864,7 @@ func runE2E(rep *vh.Report, ps *sut.ProxyStack, r *rand.Rand, idx int) {
 		wg.Add(1)
 		go func() {
 			defer wg.Done()
-			resps[i] = ps.Client.Do(sut.Req{Host: e2eHost, Target: fmt.Sprintf("/page?i=%d", i), Cookies: []string{cookie}})
+			resps[i] = ps.Client.Do(sut.Req{Host: hosts[which(i)], Target: fmt.Sprintf("/page?i=%d", i), Cookies: []string{cookies[which(i)]}})
 		}()
 	}
 	fire(0)
@@ -1532,9 +1890,11 @@ func runE2E(rep *vh.Report, ps *sut.ProxyStack, r *rand.Rand, idx int) {
 	run.PrimaryCalls = len(calls)
 	run.MaxInflight = ps.Auth.MaxInflight(endpoint, key)
 	served, staleN := 0, 0
+	foreign := map[string]bool{}
 	statuses := map[int]bool{}
-	for _, rs := range resps {
-		er := &e2eResp{Status: rs.Status}
+	for i, rs := range resps {
+		orig := *sent[which(i)]
+		er := &e2eResp{Status: rs.Status, Sent: which(i), Host: hosts[which(i)]}
 		run.Resps = append(run.Resps, er)
 		if rs.Err != nil {
 			er.Err = rs.Err.Error()
@@ -1559,7 +1919,14 @@ func runE2E(rep *vh.Report, ps *sut.ProxyStack, r *rand.Rand, idx int) {
 		}
 		er.Opens = true
 		er.Cookie = snap(s)
-		switch run.Kind {
+		so := snap(&orig)
+		for _, f := range identityFields {
+			if er.Cookie.field(f) != so.field(f) {
+				er.Foreign = append(er.Foreign, f)
+				foreign[f] = true
+			}
+		}
+		switch base {
 		case "validate":
 			if !s.ValidDeadline.After(orig.ValidDeadline) {
 				er.Stale = append(er.Stale, "valid deadline not extended")
@@ -1605,7 +1972,18 @@ func runE2E(rep *vh.Report, ps *sut.ProxyStack, r *rand.Rand, idx int) {
 	if idx < 3 {
 		rep.Sample(run)
 	}
-	if run.MaxInflight > 1 {
+	for f := range foreign {
+		rep.Violate(run.Stream, idx, "e2e: reissued-cookie-carries-another-sessions-fields "+run.Kind+" field="+f,
+			"a request whose check was merged with another session's (same tokens) was sent a re-issued cookie whose "+f+" is not that of the cookie it presented", run)
+	}
+	distinctHosts := map[string]bool{}
+	for _, h := range hosts {
+		distinctHosts[h] = true
+	}
+	if twoSessions {
+		rep.Count("e2e_two_session_runs_hosts_"+strconv.Itoa(len(distinctHosts)), 1)
+	}
+	if run.MaxInflight > len(distinctHosts) { // one provider (one coalescing group) per upstream
 		rep.Violate(run.Stream, idx, "e2e: concurrent-authenticator-calls-for-one-token "+run.Kind, fmt.Sprintf("%d /%s calls for one token were in flight at once", run.MaxInflight, endpoint), run)
 	}
 	if len(statuses) > 1 {
@@ -1714,6 +2092,7 @@ func TestProp(t *testing.T) {
 			rep.Count("wrapper_calls", len(h.Calls))
 			rep.Count("wrapper_inner_executions", len(h.Execs))
 			rep.Count("wrapper_latecomer_fresh_executions", st.fresh)
+			rep.Count("wrapper_callers_confirmed_joined_by_goroutine_dump", st.parked)
 			for k, v := range st.merged {
 				rep.Count("wrapper_merged "+k, v)
 				rep.Count("wrapper_merged_calls", v)
@@ -1730,7 +2109,8 @@ func TestProp(t *testing.T) {
 
 	// ---- (C) e2e
 	if only, skip := env.Only("c16-e2e"); !skip {
-		ps, err := sut.NewProxyStack(sut.ProxyOpts{Upstreams: []sut.UpstreamSpec{{Service: "c16svc", From: e2eHost, AllowedGroups: []string{"g1", "g2"}}}})
+		ps, err := sut.NewProxyStack(sut.ProxyOpts{Upstreams: []sut.UpstreamSpec{{Service: "c16svc", From: e2eHost, AllowedGroups: []string{"g1", "g2"}},
+			{Service: "c16svc2", From: e2eHost2, AllowedGroups: []string{"g1", "g2"}}}})
 		if err != nil {
 			rep.Inconclusive("proxy stack did not start: " + err.Error())
 		} else {
